@@ -48,9 +48,34 @@ def closure_call_sites(F, f, pat):
     return out
 
 
-def sync_sites(F, f):
+_SYNC_WRAPPER = {}
+
+
+def is_sync_wrapper(F, name, depth=0):
+    """a crate function all of whose success paths sync a file (e.g. `fn sync_path(p) { File::open(p)?.sync_all() }`):
+    a call of it counts as a sync site (wrapper summary, inlining bound 2)"""
+    if name in _SYNC_WRAPPER:
+        return _SYNC_WRAPPER[name]
+    _SYNC_WRAPPER[name] = False
+    if name not in F.bodies or depth > 2 or name == SYNC_DIR:
+        return False
+    g = F.fn(name)
+    if g.n > 40:
+        return False
+    bbs = sync_sites(F, g, depth + 1)
+    ok = bool(bbs) and must_pass(g, bbs)[0]
+    _SYNC_WRAPPER[name] = ok
+    return ok
+
+
+def sync_sites(F, f, depth=0):
     s = [c.bb for c in f.normal_calls() if m(c, P_SYNC)]
     s += closure_call_sites(F, f, P_SYNC)
+    if depth <= 2:
+        for c in f.normal_calls():
+            r = c.resolved
+            if r and r in F.bodies and r != f.name and not m(c, P_SYNC) and is_sync_wrapper(F, r, depth):
+                s.append(c.bb)
     return sorted(set(s))
 
 
